@@ -791,6 +791,110 @@ def convergence_problems(rec, sch, cid, fired_log):
     return problems
 
 
+def lag_trace(seed, n_events=300, workdir=None, keep_obs=False, listeners=()):
+    """slow links: one follower at a time falls behind (partitioned, or its traffic just queues), the leader goes
+    on, compacts, changes; then the victim's queue is drained in long runs without ticks and its answers reach the
+    leader a few at a time, with leader ticks (and compactions, and leader changes) in between - outdated rejections
+    and acknowledgements handled in different ticks, snapshots sent behind append_entries already queued"""
+    rng = random.Random(seed)
+    size = rng.choice([3, 3, 3, 4, 5])
+    voters = list(range(1, size + 1))
+    cfg = default_cfg(rng, voters)
+    cfg.update(fallback=rng.choice([300, 3000, 100000]), queue=1000, min_entries=10 ** 9, min_time=10 ** 9,
+               batch=rng.choice([60, 100, 1000, 65536]), chunk=rng.choice([7, 64, 200, 65536]))
+    rec = Recorder(cfg, workdir)
+    rec.keep_obs = keep_obs
+    rec.listeners = list(listeners)
+    sch = Scheduler(rec, rng, voters)
+    sch.opts = dict(big=rng.random() < 0.2)
+    rec.opts = sch.opts
+    sim = rec.sim
+    sch.boot()
+
+    def leader():
+        ls = [n for n in sorted(sch.alive) if sim.nodes[n]._SyncObj__raftState == 2]
+        return ls[-1] if ls else None
+
+    def others_round(skip, k=1):
+        for _ in range(k):
+            for n in sorted(sch.alive):
+                if n != skip:
+                    sch.tick(n, cfg['period'] + 1)
+            for _ in range(60):
+                d = [(a, b) for a, b in sch.deliverable() if skip not in (a, b)]
+                if not d:
+                    break
+                a, b = rng.choice(d)
+                sch.deliver(a, b)
+
+    # an election first
+    for _ in range(6):
+        if leader() is not None:
+            break
+        sch.tick(rng.choice(sorted(sch.alive)), cfg['tmin'] + cfg['tspan'] + 1)
+        sch.deliver_all(60)
+    while rec.total_events() < n_events:
+        L = leader()
+        if L is None:
+            sch.tick(rng.choice(sorted(sch.alive)), cfg['tmin'] + cfg['tspan'] + 1)
+            sch.deliver_all(60)
+            continue
+        victim = rng.choice([n for n in sorted(sch.alive) if n != L])
+        mode = rng.choice(['partition', 'queue', 'queue'])
+        if mode == 'partition':
+            for x in sorted(sch.alive):
+                if x != victim:
+                    sch.drop(victim, x)
+                    sch.drop(x, victim)
+        # the rest goes on without the victim
+        for _ in range(rng.randrange(1, 5)):
+            for _ in range(rng.randrange(0, 4)):
+                sch.submit(rng.choice([n for n in sorted(sch.alive) if n != victim]),
+                           size=rng.choice([5, 20, 60, 150]) if sch.opts['big'] else rng.choice([5, 20]))
+            others_round(victim, rng.randrange(1, 3))
+            if rng.random() < 0.35:
+                rec.do(('compact', rng.choice([n for n in sorted(sch.alive) if n != victim])))
+            if rng.random() < 0.1:
+                c = rng.choice([n for n in sorted(sch.alive) if n != victim])
+                sch.tick(c, cfg['tmin'] + cfg['tspan'] + 1)          # a leader change in the meantime
+        if mode == 'partition':
+            for x in sorted(sch.alive):
+                if x != victim:
+                    sch.connect(victim, x)
+                    sch.connect(x, victim)
+        # the victim's traffic piles up over several leader ticks, is consumed in runs, answered in pieces
+        for _ in range(rng.randrange(2, 7)):
+            L = leader() or L
+            act = rng.random()
+            if act < 0.35:
+                if L in sch.alive:
+                    sch.tick(L, cfg['period'] + 1)
+            elif act < 0.6:
+                k = rng.randrange(1, 12)
+                while k and sim.queue_len(L, victim) and sch.view(victim, L):
+                    sch.deliver(L, victim)
+                    k -= 1
+            elif act < 0.85:
+                k = rng.randrange(1, 4)
+                while k and sim.queue_len(victim, L) and sch.view(L, victim):
+                    sch.deliver(victim, L)
+                    k -= 1
+            elif act < 0.93:
+                rec.do(('compact', rng.choice(sorted(sch.alive))))
+            else:
+                if rng.random() < 0.5:
+                    sch.submit(L, size=20)
+                else:
+                    sch.tick(victim, cfg['period'] + 1)
+        if rng.random() < 0.5:
+            others_round(None, rng.randrange(1, 3))
+    # settle: everything delivered, a few calm rounds
+    sch.heal()
+    for _ in range(6):
+        others_round(None, 1)
+    return rec
+
+
 def converge_trace(seed, n_events=200, workdir=None, keep_obs=False, listeners=()):
     """a fault history (partitions, drops, losses, stale leaders, compactions, lagging followers needing a snapshot,
     read-only nodes) followed by a quiet period; the convergence verdict is stored in rec.convergence"""
